@@ -43,9 +43,11 @@ func jSilenceStdout() {
 	})
 }
 
-func JOpenWorld(dir string) *JWorld {
+func JOpenWorld(dir string) *JWorld { return JOpenWorldBus(dir, false) }
+
+func JOpenWorldBus(dir string, realBus bool) *JWorld {
 	jSilenceStdout()
-	w := server.VOpenWorld(dir)
+	w := server.VOpenWorldBus(dir, realBus)
 	j := &JWorld{W: w}
 	j.start()
 	return j
@@ -59,7 +61,7 @@ func (j *JWorld) start() {
 	logger := zap.NewNop().Sugar()
 	pm := security.NewProviderManager(env, j.W.Store, logger)
 	tps := security.NewTokenProviders(logger, pm, nil)
-	j.Runner = NewRunner(env, j.W.Store, tps, server.NoOpBus(), &statsd.NoOpClient{})
+	j.Runner = NewRunner(env, j.W.Store, tps, j.W.Bus, &statsd.NoOpClient{})
 	j.Sched = NewScheduler(env, j.W.Store, j.W.Dsm, j.Runner)
 }
 
